@@ -39,6 +39,11 @@ Configs ==
     \cup {[op |-> "rebuild", ver |-> 1, prevk |-> pk, opt |-> "plain"] : pk \in {"empty", "garbage", "dir"}}
     \cup {[op |-> "create", ver |-> v, prevk |-> pk, opt |-> "plain"] : v \in {1, 4}, pk \in {"absent", "present", "empty"}}
     \cup {[op |-> "ffi_create", ver |-> 2, prevk |-> pk, opt |-> "plain"] : pk \in {"absent", "present", "garbage"}}
+    \* link state of the destination: the archive has a second hard link elsewhere (nlink = 2) / dest is a symlink to a file
+    \* (a file in a read-only directory is not a distinct class here: the checks run as root, which ignores directory modes)
+    \cup {[op |-> o, ver |-> v, prevk |-> pk, opt |-> "plain"]
+            : o \in {"build", "compact"}, v \in {1, 4}, pk \in {"hardlink", "symlink"}}
+    \cup {[op |-> o, ver |-> 1, prevk |-> pk, opt |-> "plain"] : o \in {"rebuild", "create"}, pk \in {"hardlink", "symlink"}}
     \cup {[op |-> "compact", ver |-> v, prevk |-> "present", opt |-> o] : v \in Vers, o \in Opts}
     \* previous archive produced by an in-place session (V1/V2: remove; grow = relocated tables; add/remove/rename)
     \cup {[op |-> "compact", ver |-> v, prevk |-> pk, opt |-> "plain"] : v \in {1, 2}, pk \in {"edited", "grown", "mixed"}}
